@@ -5,6 +5,7 @@ import (
 	"encoding/json"
 	"fmt"
 	"io"
+	"os"
 	"regexp"
 	"sort"
 	"strconv"
@@ -44,6 +45,7 @@ type c16Plan struct {
 	Pad         int
 	SecondCrash bool
 	SaveDelayMs int
+	PreVote     bool // an isolated replica does not inflate its term: the snapshot arrives in the term it already voted in
 }
 
 var c16Events = []string{"sm-save-enter", "sm-save-exit", "sm-recover-enter", "sm-recover-exit", "logdb-snapshot-record-before",
@@ -171,15 +173,25 @@ func TestVF_C16_Cluster(t *testing.T) {
 			LagVictim:   vfhelp.Pick(t, "lag", 1) == 1,
 			Pad:         []int{0, 3000, 70000, 300000}[vfhelp.Pick(t, "pad", 2)],
 			SecondCrash: vfhelp.Pick(t, "second", 2) == 0,
+			PreVote:     vfhelp.Pick(t, "prevote", 1) == 1,
 		}
 		if vfhelp.Pick(t, "savedelay", 1) == 1 {
 			// a slow log store on every host: the step worker's SaveRaftState lags behind
 			// the apply and snapshot workers
 			p.SaveDelayMs = 1 + vfhelp.PickN(t, "savedelayms", 8)
 		}
+		if vfhelp.Pick(t, "recvpath", 1) == 1 {
+			// half of the cases aim at the receive path of a lagging replica: chunks, the
+			// snapshot record saved by the step worker, flag file removal, recover
+			p.Event = []int{2, 3, 5, 5, 6, 8, 9, 9}[vfhelp.Pick(t, "recvevent", 3)]
+			p.LagVictim = true
+		}
 		ev := c16Events[p.Event]
 		if strings.Contains(ev, "recover") || strings.Contains(ev, "received") || ev == "chunk" {
 			p.LagVictim = true // these events only happen on a replica that receives a snapshot
+			if ev != "chunk" || p.Pad < 70000 {
+				p.K = 1 // and only once
+			}
 		}
 		canon, _ := json.Marshal(p)
 		labels, nt, sample := runC16(t, st, p)
@@ -251,7 +263,8 @@ func runC16(t *rapid.T, st *vfhelp.Stats, p c16Plan) ([]string, bool, interface{
 	res := &Result{Rec: rec, Flags: map[string]int{}, Cluster: c}
 	res.sent = newSendMonitor(res, c)
 	c.Net.OnSend = res.sent.onSend
-	c.Net.OnChunk = func(from, to string, ck pb.Chunk) { tr.fire("chunk", to) }
+	var chunks int32
+	c.Net.OnChunk = func(from, to string, ck pb.Chunk) { atomic.AddInt32(&chunks, 1); tr.fire("chunk", to) }
 	rec.Hook = func(event string, name string) {
 		// name is "shard/replica"; replica r runs on host r-1
 		parts := strings.Split(name, "/")
@@ -267,6 +280,7 @@ func runC16(t *rapid.T, st *vfhelp.Stats, p c16Plan) ([]string, bool, interface{
 		cfg := ShardConfig(shardID, rid)
 		cfg.SnapshotEntries = p.SnapEntries
 		cfg.CompactionOverhead = p.Overhead
+		cfg.PreVote = p.PreVote
 		return dragonboatCfg{cfg}
 	}
 	for _, h := range c.Hosts {
@@ -312,6 +326,7 @@ func runC16(t *rapid.T, st *vfhelp.Stats, p c16Plan) ([]string, bool, interface{
 	}
 
 	var hostMu sync.RWMutex
+	var lagging int32
 	var opMu sync.Mutex
 	addOp := func(op *Op) {
 		opMu.Lock()
@@ -334,6 +349,10 @@ func runC16(t *rapid.T, st *vfhelp.Stats, p c16Plan) ([]string, bool, interface{
 				}
 				hostMu.RLock()
 				h := c.Hosts[(ci+i)%3]
+				if atomic.LoadInt32(&lagging) == 1 && h == victim {
+					// clients do not wait for the timeout of a host that is cut off
+					h = c.Hosts[(ci+i+1)%3]
+				}
 				nh, up := h.NH, h.Up
 				hostMu.RUnlock()
 				if !up {
@@ -374,7 +393,30 @@ func runC16(t *rapid.T, st *vfhelp.Stats, p c16Plan) ([]string, bool, interface{
 				c.Net.SetDown(victim.Addr, h.Addr, true)
 			}
 		}
-		time.Sleep(time.Duration(30+p.K*10) * time.Millisecond)
+		// long enough for the others to snapshot and compact past the victim's log
+		atomic.StoreInt32(&lagging, 1)
+		appliedOf := func() uint64 {
+			var best uint64
+			for _, h := range c.Hosts {
+				if h != victim && h.Up {
+					if v, err := h.NH.StaleRead(shardID, "\x00applied"); err == nil {
+						if a, _ := v.(uint64); a > best {
+							best = a
+						}
+					}
+				}
+			}
+			return best
+		}
+		start := appliedOf()
+		need := p.SnapEntries + p.Overhead + 4
+		for dl := time.Now().Add(2 * time.Second); time.Now().Before(dl) && appliedOf() < start+need; {
+			time.Sleep(2 * time.Millisecond)
+		}
+		if appliedOf() >= start+need {
+			labels = append(labels, "victim-lagged-behind-compaction")
+		}
+		atomic.StoreInt32(&lagging, 0)
 		c.Net.HealAll()
 		labels = append(labels, "victim-lagged")
 	}
@@ -397,6 +439,9 @@ func runC16(t *rapid.T, st *vfhelp.Stats, p c16Plan) ([]string, bool, interface{
 		acked := victim.Mon.Get(shardID, uint64(victim.Idx+1)).SnapIndex
 		preFinals, preProblems := inspectSnapshotDirs(victim)
 		t.Logf("after reset, before restart: finals %v problems %v", preFinals, preProblems)
+		if os.Getenv("VF_PLAN_DEBUG") != "" {
+			fmt.Printf("DEBUG after reset: acked snapshot %d durable-shadow %+v finals %v problems %v\n", acked, victim.Mon.Get(shardID, uint64(victim.Idx+1)).State, preFinals, preProblems)
+		}
 		// restart while still cut off from the network, so that the directory tree is
 		// exactly what the start-up cleanup left
 		nh, err := newNodeHostIsolated(victim)
@@ -417,6 +462,9 @@ func runC16(t *rapid.T, st *vfhelp.Stats, p c16Plan) ([]string, bool, interface{
 			return
 		}
 		finals, problems := inspectSnapshotDirs(victim)
+		if os.Getenv("VF_PLAN_DEBUG") != "" {
+			fmt.Printf("DEBUG after restart: finals %v problems %v\n", finals, problems)
+		}
 		for _, pr := range problems {
 			vfhelp.Fail(t, "snapshot-dir-not-clean-after-restart", "after power cut at %s (k=%d): %s (final dirs %v, acknowledged snapshot %d)", ev, p.K, pr, finals, acked)
 		}
@@ -438,10 +486,23 @@ func runC16(t *rapid.T, st *vfhelp.Stats, p c16Plan) ([]string, bool, interface{
 	select {
 	case <-tr.ch:
 		fired = true
+	case <-doneC:
+		// the clients are done; events still in the pipeline (a snapshot on its way to
+		// the lagging victim, a compaction) get a grace period, then the trigger is disarmed
+		select {
+		case <-tr.ch:
+			fired = true
+		case <-time.After(1500 * time.Millisecond):
+			if !atomic.CompareAndSwapInt32(&tr.fired, 0, 1) {
+				<-tr.ch
+				fired = true
+			}
+		}
+	case <-time.After(40 * time.Second):
+	}
+	if fired {
 		labels = append(labels, "trigger-fired")
 		crashAndInspect()
-	case <-doneC:
-	case <-time.After(40 * time.Second):
 	}
 	select {
 	case <-doneC:
@@ -466,6 +527,17 @@ func runC16(t *rapid.T, st *vfhelp.Stats, p c16Plan) ([]string, bool, interface{
 	}
 	for k := range res.Flags {
 		labels = append(labels, k)
+	}
+	rec.mu.Lock()
+	if rec.CallCount["RecoverFromSnapshot"] > 0 {
+		labels = append(labels, "sm-recovered-from-snapshot")
+	}
+	if rec.CallCount["SaveSnapshot"] > 0 {
+		labels = append(labels, "sm-saved-snapshot")
+	}
+	rec.mu.Unlock()
+	if atomic.LoadInt32(&chunks) > 0 {
+		labels = append(labels, "chunks-sent")
 	}
 	sort.Strings(labels)
 	sample := map[string]interface{}{"event": ev, "k": p.K, "victim": p.Victim, "kind": p.Kind.String(), "tan": p.Tan,
